@@ -157,7 +157,17 @@ fn rand_case(rng: &mut Rng, s: &str) -> String {
 
 fn rand_value(rng: &mut Rng) -> String {
     const ALPH: &[&str] = &["a", "b", "Z", "0", "9", " ", "\t", ":", ",", ";", "=", "/", "?", "é", "€", "😀", "\"", "%", "*", "-", "."];
-    let n = rng.below(24);
+    let n0 = rng.below(24);
+    // now and then a LONG field line: lengths around the usual buffer and limit sizes (4 KiB, 8 KiB, 16 KiB, 64 KiB)
+    if rng.chance(1, 48) {
+        let target = *rng.pick(&[4090usize, 4096, 8150, 8186, 8192, 8193, 8200, 16384, 16400, 65530, 65536, 70000]) + rng.below(8) as usize;
+        let mut s = String::with_capacity(target + 8);
+        while s.len() < target {
+            if rng.chance(1, 64) { s.push_str(*rng.pick(ALPH)); } else { s.push('a'); }
+        }
+        return s.trim().to_string();
+    }
+    let n = n0;
     let mut s = String::new();
     for _ in 0..n {
         s.push_str(*rng.pick(ALPH));
@@ -198,7 +208,17 @@ pub fn gen_request(rng: &mut Rng, big_body: bool) -> GenReq {
     let mut headers = Vec::new();
     // a small name pool per request so that names repeat and interleave (defeats unstable sorting above 20)
     let pool_n = rng.range(1, 6) as usize;
-    let pool: Vec<&str> = (0..pool_n).map(|_| if rng.chance(2, 3) { *rng.pick(KNOWN) } else { *rng.pick(CUSTOM) }).collect();
+    // names: the hand-picked typed ones, the custom ones, and any registered field name (a header the code has started
+    // to treat as a typed variant must still be parsed, looked up and re-serialised under its own name)
+    let pool: Vec<&str> = (0..pool_n).map(|_| match rng.below(6) {
+        0 | 1 | 2 => *rng.pick(KNOWN),
+        3 => *rng.pick(CUSTOM),
+        _ => {
+            let c = *rng.pick(crate::tables::HEADER_CANDIDATES);
+            // headers with a meaning of their own for the parser are generated elsewhere, deliberately
+            if matches!(c, "content-length" | "x-forwarded-for" | "cookie" | "transfer-encoding") { "x-other" } else { c }
+        }
+    }).collect();
     for _ in 0..nh {
         let base = *rng.pick(&pool);
         headers.push(GenHeader {
